@@ -1800,7 +1800,8 @@ class Transaction(object):
                 newsig_pos = pub_key_list.index(sig.public_key.public_byte)
                 if sig_domain[newsig_pos] == '':
                     sig_domain[newsig_pos] = sig
-                    n_sigs_to_insert -= 1
+                # A known signature whose place is taken by a new signature of the same key has been replaced
+                n_sigs_to_insert -= 1
             if n_sigs_to_insert:
                 for sig in self.inputs[tid].signatures:
                     free_positions = [i for i, s in enumerate(sig_domain) if s == '']
